@@ -287,8 +287,8 @@ fn replay_learn(spec: &NetSpec, data: &[(Tensor, Tensor)], b: usize, epochs: i32
 const NB_PAIRS: [&[(usize, usize)]; 5] = [
     &[(1, 1), (2, 1), (3, 1), (5, 1), (9, 1)],                                                                 // B=1
     &[(4, 2), (6, 2), (8, 2), (6, 3), (9, 3), (8, 4)],                                                         // B divides N, 1<B<N
-    &[(3, 2), (5, 2), (7, 2), (9, 2), (4, 3), (5, 3), (7, 3), (8, 3), (5, 4), (6, 4), (7, 4), (9, 4), (9, 8)], // B not dividing N
-    &[(2, 2), (3, 3), (4, 4), (8, 8)],                                                                         // B=N
+    &[(3, 2), (5, 2), (7, 2), (9, 2), (4, 3), (5, 3), (7, 3), (8, 3), (5, 4), (6, 4), (7, 4), (9, 4), (9, 8), (130, 100)], // B not dividing N
+    &[(2, 2), (3, 3), (4, 4), (8, 8), (70, 70)],                                                               // B=N
     &[(1, 2), (1, 3), (2, 3), (1, 4), (3, 4), (1, 8), (2, 8), (5, 8), (7, 8)],                                 // B>N
 ];
 
